@@ -143,4 +143,29 @@ theorem rowNode_hook (r : Row) (act : Option (Uid × Str)) (s : St) (hna : s.noA
     · simp only [ne_eq, tid_inj]; omega
     · rw [hK]; rfl
 
+theorem not_basic_r : basicTypes.contains "split_random".toList = false := by decide
+
+/-- the node of a `split_random` row: no bucket yet -/
+theorem rowNode_random (r : Row) (act : Option (Uid × Str)) (s : St) (ht : r.type = "split_random".toList) :
+    wp (rowNode r act) s (fun n s' => (∃ k, Bump s s' k) ∧ n.kind = NodeKind.random ∧ n.actions = [] ∧
+      n.router = some (.rnd { cats := [], resultName := some r.saveName })) := by
+  unfold rowNode
+  wp_simp
+  refine ⟨fun _ => ?_, fun _ => trivial⟩
+  have e0 : basicTypes.contains r.type = false := by rw [ht]; exact not_basic_r
+  have e1 : ¬ r.type = "start_new_flow".toList := by rw [ht]; decide
+  have e2 : ¬ (r.type = "call_webhook".toList ∨ r.type = "transfer_airtime".toList) := by
+    rw [ht]; rintro (hh | hh) <;> exact absurd hh (by decide)
+  have e3 : ¬ r.type = "wait_for_response".toList := by rw [ht]; decide
+  have e4 : ¬ r.type = "split_by_value".toList := by rw [ht]; decide
+  have e5 : ¬ r.type = "split_by_group".toList := by rw [ht]; decide
+  refine ⟨fun hh => (by rw [e0] at hh; cases hh), fun _ => ⟨fun hh => absurd hh e1, fun _ => ⟨fun hh => absurd hh e2, fun _ =>
+    ⟨fun hh => absurd hh e3, fun _ => ⟨fun hh => absurd hh e4, fun _ => ⟨fun hh => absurd hh e5, fun _ =>
+    ⟨fun _ => ?_, fun hh => absurd ht hh⟩⟩⟩⟩⟩⟩⟩
+  unfold splitRandomNode
+  wp_simp [wp_newRouterNode]
+  refine wp_mono (nodeUid_spec _ _) ?_
+  intro u s1 ⟨j, hb, _⟩; subst hb
+  exact ⟨⟨j + 1, by simp [Bump, Nat.add_assoc]⟩, trivial, trivial, trivial⟩
+
 end Rpft.CoreSheet
